@@ -258,13 +258,17 @@ namespace pika::when_all_vector_detail {
                 {
 #if defined(PIKA_HAVE_STDEXEC)
                     if constexpr (pika::execution::experimental::sends_stopped<Sender>)
-#else
-                    if constexpr (pika::execution::experimental::sender_traits<Sender>::sends_done)
-#endif
                     {
                         pika::execution::experimental::set_stopped(std::move(receiver));
                     }
                     else { PIKA_UNREACHABLE; }
+#else
+                    // This branch is only reached when a predecessor did signal stopped.
+                    // sends_done cannot be used to rule that out: the type-erased senders
+                    // and all adaptors declare sends_done = false but forward a stopped
+                    // signal at run time.
+                    pika::execution::experimental::set_stopped(std::move(receiver));
+#endif
                 }
             }
         }
